@@ -39,6 +39,7 @@ TSnapG == Is("SnapGraph") /\ SnapGraph(Log[l].g, Log[l].name, Log[l], l) /\ Adv
 TSnapE == Is("SnapElev") /\ SnapElev(Log[l].g, Log[l].name, Log[l].z, l) /\ Adv
 TKernel == Is("Kernel") /\ KernelApply(Log[l].g, Log[l], l) /\ Adv
 TSpl == Is("Spl") /\ Spl(Log[l].g, Log[l], l) /\ Adv
+TBGraph == Is("BasinGraph") /\ BasinGraphObs(Log[l].g, Log[l], l) /\ Adv
 TSnapM == Is("SnapMutate") /\ SnapMutate(Log[l].g, Log[l].name, Log[l].threw, l) /\ Adv
 \* a call that never returned (hang, crash): no specification action allows it; in diagnosis
 \* mode it is reported and skipped so that the rest of the trace is still examined
@@ -46,7 +47,7 @@ TNoReturn == Is("NoReturn") /\ Diag /\ PrintT(<<"FAILED", "NoReturn", "line", l>
 
 TraceInit == FInit /\ l = 1
 TraceNext == TReset \/ TGrid \/ TNew \/ TDrop \/ TMask \/ TBL \/ TParam \/ TUpdate \/ TAcc
-             \/ TBasins \/ TSnapG \/ TSnapE \/ TSnapM \/ TKernel \/ TSpl \/ TNoReturn
+             \/ TBasins \/ TSnapG \/ TSnapE \/ TSnapM \/ TKernel \/ TSpl \/ TBGraph \/ TNoReturn
 TraceSpec == TraceInit /\ [][TraceNext]_tvars
 
 TraceAccepted ==
